@@ -13,3 +13,6 @@ import NbioVerif.Properties.C15
 #print axioms Ws.c15_cache_bound_counterexample
 #print axioms Ws.c15_cache_bound_partial
 #print axioms Ws.c15_delivered_within_handoff
+#print axioms Ws.c15_control_send_frame
+#print axioms Ws.c15_control_send_close
+#print axioms Ws.c15_control_send_ok
